@@ -554,12 +554,14 @@ package chain
 //@   ensures supp == ite(bs != nil, old(supp)[b.ID() := true], remove(old(supp), b.ID()))
 //@ iface Store.ApplyBlock
 //@   assigns ghost:best, ghost:sheight, ghost:applied
+//@   requires [one-diff-per-id] oneDiffPerIDApply(cau)
 //@   requires [state-stored] s.Index.ID in states
 //@   requires [has-supplement] s.Index.ID in supp
 //@   requires [next-height] s.Index.Height == sheight + 1 || (s.Index.Height == 0 && !(0 in best))
 //@   ensures best == old(best)[s.Index.Height := s.Index.ID] && sheight == s.Index.Height && applied == old(applied)[s.Index.ID := true]
 //@ iface Store.RevertBlock
 //@   assigns ghost:best, ghost:sheight
+//@   requires [one-diff-per-id] oneDiffPerIDRevert(cru)
 //@   requires [tip-parent] s.Index.Height + 1 == sheight
 //@   ensures best == remove(old(best), s.Index.Height + 1) && sheight == s.Index.Height
 //
@@ -605,10 +607,12 @@ package chain
 //@   ensures [fields] db.n == old(db.n) && db.db == old(db.db)
 //@ func (*DBStore).ApplyBlock props C03
 //@   requires db != nil && db.db != nil && db.n != nil
+//@   requires [one-diff-per-id] oneDiffPerIDApply(cau)
 //@   ensures [writes-before-commit] !mayHaveCalled("Flush") || (calledBefore("applyState", "Flush") && (s.Index.Height > db.n.HardforkV2.RequireHeight || calledBefore("applyElements", "Flush")))
 //@   ensures [state-written] called("applyState")
 //@ func (*DBStore).RevertBlock props C03
 //@   requires db != nil && db.db != nil && db.n != nil
+//@   requires [one-diff-per-id] oneDiffPerIDRevert(cru)
 //@   ensures [writes-before-commit] !mayHaveCalled("Flush") || (calledBefore("revertState", "Flush") && (s.Index.Height > db.n.HardforkV2.RequireHeight || calledBefore("revertElements", "Flush")))
 //@   ensures [state-written] called("revertState")
 // (assumed frames of the bucket-level writers: they change the write counter and the backend only)
@@ -761,6 +765,16 @@ package chain
 //@ extern (types.FileContractElement).Share pure
 //@   ensures result.ID == fce.ID && result.FileContract == fce.FileContract && result.StateElement.LeafIndex == fce.StateElement.LeafIndex
 //
+// a block touches every element at most once: one diff per element id (consensus, assumed where the
+// update is made: see the contracts of consensus.ApplyBlock / RevertBlock)
+//@ pred oneDiffPerIDApply(u consensus.ApplyUpdate) =
+//@     (forall a int, b int :: { u.SiacoinElementDiffs()[a], u.SiacoinElementDiffs()[b] } 0 <= a && a < b && b < len(u.SiacoinElementDiffs()) ==> u.SiacoinElementDiffs()[a].SiacoinElement.ID != u.SiacoinElementDiffs()[b].SiacoinElement.ID)
+//@  && (forall a int, b int :: { u.SiafundElementDiffs()[a], u.SiafundElementDiffs()[b] } 0 <= a && a < b && b < len(u.SiafundElementDiffs()) ==> u.SiafundElementDiffs()[a].SiafundElement.ID != u.SiafundElementDiffs()[b].SiafundElement.ID)
+//@  && (forall a int, b int :: { u.FileContractElementDiffs()[a], u.FileContractElementDiffs()[b] } 0 <= a && a < b && b < len(u.FileContractElementDiffs()) ==> u.FileContractElementDiffs()[a].FileContractElement.ID != u.FileContractElementDiffs()[b].FileContractElement.ID)
+//@ pred oneDiffPerIDRevert(u consensus.RevertUpdate) =
+//@     (forall a int, b int :: { u.SiacoinElementDiffs()[a], u.SiacoinElementDiffs()[b] } 0 <= a && a < b && b < len(u.SiacoinElementDiffs()) ==> u.SiacoinElementDiffs()[a].SiacoinElement.ID != u.SiacoinElementDiffs()[b].SiacoinElement.ID)
+//@  && (forall a int, b int :: { u.SiafundElementDiffs()[a], u.SiafundElementDiffs()[b] } 0 <= a && a < b && b < len(u.SiafundElementDiffs()) ==> u.SiafundElementDiffs()[a].SiafundElement.ID != u.SiafundElementDiffs()[b].SiafundElement.ID)
+//@  && (forall a int, b int :: { u.FileContractElementDiffs()[a], u.FileContractElementDiffs()[b] } 0 <= a && a < b && b < len(u.FileContractElementDiffs()) ==> u.FileContractElementDiffs()[a].FileContractElement.ID != u.FileContractElementDiffs()[b].FileContractElement.ID)
 // What one diff does to its bucket when applied / reverted (g: bucket after, g0: bucket before):
 //@ pred sameFC(a types.FileContractElement, b types.FileContractElement) = a.ID == b.ID && a.FileContract == b.FileContract && a.StateElement.LeafIndex == b.StateElement.LeafIndex
 //@ pred scApplied(g map[types.SiacoinOutputID]types.SiacoinElement, g0 map[types.SiacoinOutputID]types.SiacoinElement, df consensus.SiacoinElementDiff) =
@@ -791,9 +805,7 @@ package chain
 //@ func (*DBStore).applyElements props C02
 //@   assigns heap:DBStore, ghost:gSC, ghost:gSF, ghost:gFC
 //@   requires db != nil
-//@   requires [one-sc-diff-per-id] forall a int, b int :: { cau.SiacoinElementDiffs()[a], cau.SiacoinElementDiffs()[b] } 0 <= a && a < b && b < len(cau.SiacoinElementDiffs()) ==> cau.SiacoinElementDiffs()[a].SiacoinElement.ID != cau.SiacoinElementDiffs()[b].SiacoinElement.ID
-//@   requires [one-sf-diff-per-id] forall a int, b int :: { cau.SiafundElementDiffs()[a], cau.SiafundElementDiffs()[b] } 0 <= a && a < b && b < len(cau.SiafundElementDiffs()) ==> cau.SiafundElementDiffs()[a].SiafundElement.ID != cau.SiafundElementDiffs()[b].SiafundElement.ID
-//@   requires [one-fc-diff-per-id] forall a int, b int :: { cau.FileContractElementDiffs()[a], cau.FileContractElementDiffs()[b] } 0 <= a && a < b && b < len(cau.FileContractElementDiffs()) ==> cau.FileContractElementDiffs()[a].FileContractElement.ID != cau.FileContractElementDiffs()[b].FileContractElement.ID
+//@   requires [one-diff-per-id] oneDiffPerIDApply(cau)
 //@   loop "range cau.SiacoinElementDiffs()"
 //@     invariant db == old(db) && db.db == old(db.db) && db.n == old(db.n) && gSF == loopentry(gSF) && gFC == loopentry(gFC)
 //@     invariant [done] forall d int :: { cau.SiacoinElementDiffs()[d] } 0 <= d && d <= rangeindex ==> scApplied(gSC, old(gSC), cau.SiacoinElementDiffs()[d])
@@ -823,9 +835,7 @@ package chain
 //@ func (*DBStore).revertElements props C02
 //@   assigns heap:DBStore, ghost:gSC, ghost:gSF, ghost:gFC
 //@   requires db != nil
-//@   requires [one-sc-diff-per-id] forall a int, b int :: { cru.SiacoinElementDiffs()[a], cru.SiacoinElementDiffs()[b] } 0 <= a && a < b && b < len(cru.SiacoinElementDiffs()) ==> cru.SiacoinElementDiffs()[a].SiacoinElement.ID != cru.SiacoinElementDiffs()[b].SiacoinElement.ID
-//@   requires [one-sf-diff-per-id] forall a int, b int :: { cru.SiafundElementDiffs()[a], cru.SiafundElementDiffs()[b] } 0 <= a && a < b && b < len(cru.SiafundElementDiffs()) ==> cru.SiafundElementDiffs()[a].SiafundElement.ID != cru.SiafundElementDiffs()[b].SiafundElement.ID
-//@   requires [one-fc-diff-per-id] forall a int, b int :: { cru.FileContractElementDiffs()[a], cru.FileContractElementDiffs()[b] } 0 <= a && a < b && b < len(cru.FileContractElementDiffs()) ==> cru.FileContractElementDiffs()[a].FileContractElement.ID != cru.FileContractElementDiffs()[b].FileContractElement.ID
+//@   requires [one-diff-per-id] oneDiffPerIDRevert(cru)
 //@   loop "range cru.FileContractElementDiffs()"
 //@     invariant db == old(db) && db.db == old(db.db) && db.n == old(db.n) && gSC == loopentry(gSC) && gSF == loopentry(gSF)
 //@     invariant [done] forall d int :: { cru.FileContractElementDiffs()[d] } 0 <= d && d <= rangeindex ==> fcReverted(gFC, old(gFC), cru.FileContractElementDiffs()[d])
